@@ -909,10 +909,10 @@ func (be *BigEval) inlineHelper(st btState, x *ssa.Call) {
 		agree := true
 		for _, b := range g.Blocks {
 			ret, ok := b.Instrs[len(b.Instrs)-1].(*ssa.Return)
-			if !ok || isNilConst(ret.Results[k]) {
+			if !ok || isNilConst(retValue(ret, k)) {
 				continue
 			}
-			rt, ok := sub.Use[ret][ret.Results[k]]
+			rt, ok := sub.Use[ret][retValue(ret, k)]
 			if n := rt.opaqueName(); !ok || rt.Top || (n != "" && !(n[0] >= 'A' && n[0] <= 'Z' && strings.Contains(n, "("))) {
 				// (a helper that merely hands on a value it obtained keeps its call descriptor)
 				agree = false
